@@ -18,6 +18,7 @@ import (
 	"path/filepath"
 	"reflect"
 	"sort"
+	"strings"
 
 	"sigs.k8s.io/controller-runtime/pkg/client"
 	"sigs.k8s.io/controller-runtime/pkg/event"
@@ -66,6 +67,10 @@ type jJudge struct {
 	Kept     []jKept  `json:"kept"`
 	NoChange bool     `json:"nochange"`
 	Panic    string   `json:"panic"`
+	// lead lines: what the real Updater behind the real LeaderAwareGroupUpdater did during one operation
+	Phase  string   `json:"phase,omitempty"`  // pre | enable | post
+	Reqs   []string `json:"reqs,omitempty"`   // objects it was asked to write (client Get)
+	Writes []string `json:"writes,omitempty"` // objects whose status it wrote (client Status().Update)
 }
 
 type jLine struct {
@@ -181,9 +186,37 @@ func applyAndSummarise(reqs []frameworkStatus.UpdateRequest, objs []client.Objec
 func keysOf(objs []client.Object) []string {
 	out := []string{}
 	for _, o := range objs {
-		out = append(out, TargetStr(p.KeyOf(o)))
+		k := p.KeyOf(o)
+		switch k.Kind {
+		case "Secret", "ConfigMap", "Service", "EndpointSlice", "ReferenceGrant", "Namespace":
+			// no counterpart in the model state: declared, accepted by the judge on trust (never request targets)
+			out = append(out, "aux:"+k.String())
+		default:
+			out = append(out, TargetStr(k))
+		}
 	}
 	sort.Strings(out)
+	return out
+}
+
+// withoutSnippetsOf drops the status entries of the SnippetsFilters of x: a SnippetsFilter is NGF's own CRD and
+// always gets its status; what is compared is the status of everything else.
+func withoutSnippetsOf(statuses []string, x []client.Object) []string {
+	skip := map[string]bool{}
+	for _, o := range x {
+		if _, ok := o.(*ngfAPI.SnippetsFilter); ok {
+			skip[TargetStr(p.KeyOf(o))] = true
+		}
+	}
+	if len(skip) == 0 {
+		return statuses
+	}
+	out := []string{}
+	for _, st := range statuses {
+		if i := strings.IndexByte(st, ' '); i < 0 || !skip[st[:i]] {
+			out = append(out, st)
+		}
+	}
 	return out
 }
 
@@ -220,7 +253,7 @@ const extraRuns = 9
 
 // repeat runs a fresh controller n more times on objs in other arrival orders and returns one hash per
 // run of the generated files and of the resulting statuses.
-func repeat(r *rng.R, objs []client.Object, opts p.Options, n int) (files, statuses []string) {
+func repeat(r *rng.R, objs []client.Object, opts p.Options, n int, x ...client.Object) (files, statuses []string) {
 	for i := 0; i < n; i++ {
 		cp := cloneAll(objs)
 		rng.Shuffle(r, cp)
@@ -230,6 +263,7 @@ func repeat(r *rng.R, objs []client.Object, opts p.Options, n int) (files, statu
 			fh = defaultFiles(c)
 		}
 		st, _ := applyAndSummarise(out.Requests, objs, opts.Controller)
+		st = withoutSnippetsOf(st, x)
 		files, statuses = append(files, hashOf(fh)), append(statuses, hashOf(st))
 	}
 	return files, statuses
@@ -282,13 +316,14 @@ func runMeta(e *emitter, r *rng.R, tags map[string]int) {
 	lb.J.StatusA = la.J.StatusA
 	if outB.Panic == "" {
 		lb.J.StatusB, lb.J.Kept = applyAndSummarise(outB.Requests, all, ours)
+		lb.J.StatusB = withoutSnippetsOf(lb.J.StatusB, x)
 	}
 	lb.J.RunsA, lb.J.SRunsA = []string{hashOf(lb.J.FilesA)}, []string{hashOf(lb.J.StatusA)}
 	lb.J.RunsB, lb.J.SRunsB = []string{hashOf(lb.J.FilesB)}, []string{hashOf(lb.J.StatusB)}
 	if outA.Panic == "" && outB.Panic == "" && (lb.J.RunsA[0] != lb.J.RunsB[0] || lb.J.SRunsA[0] != lb.J.SRunsB[0]) {
 		tags["meta-repeated"]++
 		fa, sa := repeat(r, base, s.Opts, extraRuns)
-		fb, sb := repeat(r, all, s.Opts, extraRuns)
+		fb, sb := repeat(r, all, s.Opts, extraRuns, x...)
 		lb.J.RunsA, lb.J.SRunsA = append(lb.J.RunsA, fa...), append(lb.J.SRunsA, sa...)
 		lb.J.RunsB, lb.J.SRunsB = append(lb.J.RunsB, fb...), append(lb.J.SRunsB, sb...)
 	}
@@ -950,6 +985,8 @@ func Run(args []string) int {
 	n := fs.Int("n", 100, "metamorphic pairs")
 	nd := fs.Int("disabled", 30, "foreign-controlled configured class cases")
 	nh := fs.Int("hist", 20, "histories (half of them through the GatewayClass predicate)")
+	nl := fs.Int("lead", 20, "random ownership-changing histories through the real LeaderAwareGroupUpdater")
+	nf := fs.Int("frag", 0, "in-fragment pairs (s, s+X) for the pipeline-model tie")
 	steps := fs.Int("steps", 8, "batches per history")
 	fs.StringVar(&dumpDir, "dumpdir", "", "debug: write the files of the pair whose meta line has id -dumpid")
 	fs.IntVar(&dumpID, "dumpid", 0, "")
@@ -970,6 +1007,15 @@ func Run(args []string) int {
 	}
 	for i := 0; i < *nh; i++ {
 		runHist(e, r.Fork(), *steps, i%2 == 1, tags)
+	}
+	if *nf > 0 {
+		runFrag(e, r.Fork(), *nf, tags)
+	}
+	if *nl > 0 {
+		runLeadScripted(e, r.Fork(), tags)
+	}
+	for i := 0; i < *nl; i++ {
+		runLeadRandom(e, r.Fork(), *steps, tags)
 	}
 	b, _ := json.Marshal(map[string]any{"k": "tags", "tags": tags})
 	e.w.Write(b)
